@@ -67,18 +67,31 @@ structure VSt where
   seen32 : List Bytes := []
 deriving Repr
 
+/-- `ElementUniqueValidator` (chained only without lexical ordering). -/
+def chkU (r : Rules) (st : VSt) (x : Bytes) : Option EK :=
+  if r.noDups && !r.lex then (if st.set.contains x then some .arrUnique else none) else none
+
+/-- `LexicalOrderValidator`, or `LexicalOrderWithoutDupsValidator` when duplicates are forbidden as well
+(`bytes.Compare(prev, next)`: 1 — order violation, 0 — duplicate). -/
+def chkL (r : Rules) (st : VSt) (x : Bytes) : Option EK :=
+  if r.lex then
+    match st.prev with
+    | none => none
+    | some p =>
+      if r.noDups then (if !lexLe p x then some .arrOrder else if p == x then some .arrUnique else none)
+      else (if !lexLe p x then some .arrOrder else none)
+  else none
+
+/-- `AtMostOneOfEachTypeValidator` with a denotation of `w` bytes. -/
+def chkT (on : Bool) (w : Nat) (seen : List Bytes) (x : Bytes) : Option EK :=
+  if on then (if x.length < w then some .invalidBytes else if seen.contains (x.take w) then some .arrTypeUnique else none)
+  else none
+
 /-- First failing validator of the chain for `next`, in the order of the mode bits (no-duplicates — only
 without lexical ordering —, lexical order with or without duplicates, type byte, type word). -/
 def vErr (r : Rules) (st : VSt) (next : Bytes) : Option EK :=
-  if r.noDups && !r.lex && st.set.contains next then some .arrUnique
-  else if r.lex && !r.noDups && (match st.prev with | some p => !lexLe p next | none => false) then some .arrOrder
-  else if r.lex && r.noDups && (match st.prev with | some p => !lexLe p next | none => false) then some .arrOrder
-  else if r.lex && r.noDups && (match st.prev with | some p => p == next | none => false) then some .arrUnique
-  else if r.one8 && next.length < 1 then some .invalidBytes
-  else if r.one8 && st.seen8.contains (next.take 1) then some .arrTypeUnique
-  else if r.one32 && next.length < 4 then some .invalidBytes
-  else if r.one32 && st.seen32.contains (next.take 4) then some .arrTypeUnique
-  else none
+  (chkU r st next).orElse fun _ => (chkL r st next).orElse fun _ =>
+    (chkT r.one8 1 st.seen8 next).orElse fun _ => chkT r.one32 4 st.seen32 next
 
 /-- The captured variables after an accepted element. -/
 def vNext (r : Rules) (st : VSt) (next : Bytes) : VSt :=
@@ -109,7 +122,7 @@ error it stores (both can happen: `WriteSliceOfByteSlices`), or a panic. -/
 inductive WOut where
   | done (bs : Bytes) (err : Option EK)
   | panic
-deriving Repr
+deriving Repr, DecidableEq
 
 inductive WOp where
   /-- `WriteNum` with a value of a `w`-byte integer / float type (floats as bit patterns). -/
